@@ -2,6 +2,7 @@
 from __future__ import annotations
 
 import ast
+from fractions import Fraction
 
 from ..contracts import *  # noqa: F401,F403
 from ..loader import AnalysisError, src_of
@@ -182,6 +183,57 @@ def run(prog, tier) -> Result:
 
     string_cases(prog, cr, rule="R18.4")
 
+    # ---- R18.4c concrete text forms: every spelling of a number the amount classes print or accept (sign, decimal
+    # point, exponent notation, ratio), alone or followed by one blank and a symbol, is read as exactly that number
+    # and that symbol - whatever the reader does with the characters
+    TEXTS = ["5", "-5", "+7", "1.5", ".5", "5.", "1e3", "2.5E-3", "1E+2", "1/3", "-2/7", " 12", "0", "0.00", "-0"]
+    SYMS = [None, "m", "m/s", "fl oz"]
+
+    def setup_concrete(text, sym):
+        def setup(c):
+            c.new_type("T", **FLAVORS["ref"])
+            full = text if sym is None else f"{text} {sym}"
+            cls = c.cls("T") if sym is None else ClsV(c.m.special_type("Quantity"))
+            return [cls, StrV(full)], {}
+        return setup
+
+    def judge_concrete(text, sym):
+        want = Fraction(text.strip())
+
+        def judge(o):
+            st = o.state
+            looks = [e for e in st.effects if e[0] == "symlookup" and getattr(e[1], "unit_values", False)]
+            if o.kind == "raise":
+                if sym is not None and looks and not any(e[3] for e in looks) and st.exc_is_qerr(o.exc.name):
+                    keys = [e[2].const for e in looks if isinstance(e[2], StrV)]
+                    if keys and all(k == sym for k in keys):
+                        return None         # the symbol is not registered on this path
+                    return ("symbol text is transformed before the directory lookup", f"looked up {keys!r} for {sym!r}")
+                return ("well-formed text rejected", f"{exc_sig(o)} for {(text if sym is None else text + ' ' + sym)!r}")
+            v = o.value
+            if not isinstance(v, QtyV) or v.amount is None or v.unit is None:
+                return ("no instance", repr(v))
+            got = st.expand_rnd(v.amount.rf)        # (the symbol's type may declare a quantum: the exact value counts)
+            if not (got.is_const() and got.const_value() == want):
+                return ("text is not read as the number it spells", f"{text!r} read as {got!r}")
+            if v.amount.kind == "float":
+                return ("float amount stored", repr(v))
+            if sym is None:
+                if looks:
+                    return ("a text without symbol triggers a symbol lookup", repr([e[2] for e in looks]))
+                if st.same_unit(v.unit.uid, st.ref_unit("T")) is not True:
+                    return ("default unit is not the reference unit", repr(v))
+                return None
+            keys = [e[2].const for e in looks if isinstance(e[2], StrV)]
+            if keys != [sym]:
+                return ("symbol text is transformed before the directory lookup", f"looked up {keys!r} for {sym!r}")
+            return None
+        return judge
+    for text in TEXTS:
+        for sym in (SYMS if text in ("5", "1e3", "1/3", "-5", "1.5") else SYMS[:2]):
+            cr.run("R18.4c", new, f"text {(text if sym is None else text + ' ' + sym)!r}", setup_concrete(text, sym),
+                   judge_concrete(text, sym), inline_ctor=True)
+
     # ---- R18.3 text template: writer / reader agreement, decided on the evaluated text (a template of literal
     # pieces and formatted values), not on how __str__ / __format__ are written
     qstr = prog.method("Quantity", "__str__")
@@ -269,4 +321,5 @@ def run(prog, tier) -> Result:
     res.require("R18.3", 5)
     res.require("R18.4i", 1)
     res.require("R18.4", 5)
+    res.require("R18.4c", 30)
     return res
